@@ -64,7 +64,10 @@ use std::collections::HashMap;
 pub struct GenericParser<'a, 'b, Version, Purpose> {
   version: PhantomData<Version>,
   purpose: PhantomData<Purpose>,
+  #[cfg(not(rusty_paseto_verif))]
   claims: HashMap<String, Box<dyn erased_serde::Serialize + 'b>>,
+  #[cfg(rusty_paseto_verif)]
+  claims: HashMap<String, Box<dyn erased_serde::Serialize + 'b>, crate::verif_hooks::SimBuildHasher>,
   claim_validators: ValidatorMap,
   footer: Footer<'a>,
   implicit_assertion: ImplicitAssertion<'a>,
@@ -76,7 +79,10 @@ impl<'a, 'b, Version, Purpose> GenericParser<'a, 'b, Version, Purpose> {
     GenericParser::<Version, Purpose> {
       version: PhantomData::<Version>,
       purpose: PhantomData::<Purpose>,
+      #[cfg(not(rusty_paseto_verif))]
       claims: HashMap::new(),
+      #[cfg(rusty_paseto_verif)]
+      claims: HashMap::with_hasher(crate::verif_hooks::SimBuildHasher::new()),
       claim_validators: HashMap::new(),
       footer: Default::default(),
       implicit_assertion: Default::default(),
